@@ -127,8 +127,30 @@ def doc_of(id_):
     return "VCS" if id_.startswith("VCS.") else id_.split(".")[0]
 
 
-def mk_inst(tag, id_, proto, form, value):
-    return {"tag": tag, "id": id_, "doc": doc_of(id_), "proto": proto, "form": form, "value": value}
+def mk_inst(tag, id_, proto, form, value, stack=None, desc=None):
+    c = {"tag": tag, "id": id_, "doc": doc_of(id_), "proto": proto, "form": form, "value": value}
+    if stack is not None:
+        c["stack"] = stack              # PROT-STACK-SNREF: optional qualifier, not part of the override key
+    if desc is not None:
+        c["desc"] = desc                # DESC: optional, carries no meaning for the resolution
+    return c
+
+
+STACKS = ["ST_A", "ST_B"]
+
+
+def qualifier_mode(rng):
+    """per document: how often a COMPARAM-REF carries the optional PROT-STACK-SNREF / DESC (half of the documents: never)"""
+    return rng.choice([0.0, 0.0, 0.0, 0.25, 0.5, 0.9])
+
+
+def rand_qualifiers(rng, q):
+    """-> (stack, desc); two stack names so that 'one side omits it' and 'both name different stacks' both occur"""
+    if q == 0.0:
+        return None, None
+    stack = rng.choice(STACKS) if rng.random() < q else None
+    desc = rng.choice(["text", "a < b", " "]) if rng.random() < q / 4 else None
+    return stack, desc
 
 
 def gen_shape(rng, k, legal_bias=0.7):
@@ -164,11 +186,12 @@ def gen_random(rng, kmax):
     prot_names = [L["name"] for L in layers if L["kind"] == "PROTOCOL"][:2] + ["PA"]
     protos = [None, None] + prot_names[:rng.randint(1, len(prot_names))]
     tag = 0
+    qm = qualifier_mode(rng)
     for L in layers:
         for _ in range(rng.choice([0, 1, 1, 2, 2, 3, 4])):
             id_ = rng.choice(focus) if rng.random() < 0.8 else rng.choice(ids)
             form, value = rand_inst_value(rng, cat[id_])
-            L["insts"].append(mk_inst(tag, id_, rng.choice(protos), form, value))
+            L["insts"].append(mk_inst(tag, id_, rng.choice(protos), form, value, *rand_qualifiers(rng, qm)))
             tag += 1
     return h
 
@@ -182,6 +205,7 @@ def gen_values(rng):
     cat = CL.catalog(h)
     ids = SHIPPED_IDS + [e[1] for e in custom]
     tag = 0
+    qm = qualifier_mode(rng)
     well = rng.random() < 0.6
     if well and rng.random() < 0.5:
         for e in custom:
@@ -199,7 +223,7 @@ def gen_values(rng):
                     value[1] = rng.choice(["", str(rng.randrange(2048))])
                 if well and n == "CP_CANFDTxMaxDataLength" and form != "COMPLEX-VALUE":
                     value = rng.choice(["", "CANFD", "TX_DL=64 CANFD", f"CANFD TX_DL = {rng.randrange(100)}", "TX_DL=8"])
-                L["insts"].append(mk_inst(tag, id_, rng.choice([None, None, None, "PA"]), form, value))
+                L["insts"].append(mk_inst(tag, id_, rng.choice([None, None, None, "PA"]), form, value, *rand_qualifiers(rng, qm)))
                 tag += 1
     return h
 
@@ -213,16 +237,18 @@ def gen_systematic(rng, k=None):
     layers = gen_shape(rng, k, legal_bias=0.5)
     h = {"custom": [], "layers": layers}
     tag = 0
+    qm = qualifier_mode(rng)
     for L in layers:
         for kind in rng.choice(SYS_PATTERNS):
             id_ = "ISO_11898_2_DWCAN.CP_Baudrate" if rng.random() < 0.85 else "ISO_11898_3_DWFTCAN.CP_Baudrate"
-            L["insts"].append(mk_inst(tag, id_, {"g": None, "s": "P", "o": "Q"}[kind], "SIMPLE-VALUE", str(100 + tag)))
+            L["insts"].append(mk_inst(tag, id_, {"g": None, "s": "P", "o": "Q"}[kind], "SIMPLE-VALUE", str(100 + tag),
+                                      *rand_qualifiers(rng, qm)))
             tag += 1
     return h
 
 
-def S(id_, proto, value, tag, form="SIMPLE-VALUE"):
-    return mk_inst(tag, id_, proto, form, value)
+def S(id_, proto, value, tag, form="SIMPLE-VALUE", stack=None, desc=None):
+    return mk_inst(tag, id_, proto, form, value, stack, desc)
 
 
 BR = "ISO_11898_2_DWCAN.CP_Baudrate"
@@ -261,6 +287,12 @@ def corpus():
     docs.append(("tie", {"custom": [], "layers": [fg([S(BR, None, "1", 0)]),
                                                   {"kind": "FUNCTIONAL-GROUP", "name": "FG1", "parents": [], "insts": [S(BR, None, "2", 1)]},
                                                   bv([], parents=(0, 1), i=2), bv([], parents=(1, 0), i=3)]}))
+    # the optional PROT-STACK-SNREF (and DESC) of a COMPARAM-REF is not part of the override key: a closer definition for the same
+    # (parameter, protocol) replaces the inherited one whether or not the two agree in it (seeded change C15-r4-1)
+    docs.append(("stack-qualifier", {"custom": [], "layers": [
+        {"kind": "PROTOCOL", "name": "PR0", "parents": [], "insts": [S(BR, "PR0", "1", 0, stack="ST_A"), S(BR, None, "2", 1, stack="ST_A", desc="d")]},
+        {"kind": "BASE-VARIANT", "name": "BV1", "parents": [0], "insts": [S(BR, "PR0", "3", 2), S(BR, None, "4", 3, stack="ST_B")]},
+        {"kind": "ECU-VARIANT", "name": "EV2", "parents": [1], "insts": [S(BR, "PR0", "", 4, stack="ST_B"), S(BR, None, "6", 5, stack="ST_A")]}]}))
     return docs
 
 
@@ -318,6 +350,27 @@ def model_free(ctx, h, i, o, cat, inst_by_tag, names, protos):
     for c in L["insts"]:
         last_local[(c["id"], c["proto"])] = c["tag"]
     by_key = {(r[1], r[2]): r[0] for r in refs}
+    # measured: how often the optional qualifiers occur where they could matter (same key, other PROT-STACK-SNREF further up)
+    anc, todo = set(), list(L["parents"])
+    while todo:
+        a = todo.pop()
+        if a not in anc and h["layers"][a]["kind"] != "ECU-SHARED-DATA":
+            anc.add(a)
+            todo.extend(h["layers"][a]["parents"])
+    inherited = {}
+    for a in anc:
+        for c in h["layers"][a]["insts"]:
+            inherited.setdefault((c["id"], c["proto"]), set()).add(c.get("stack"))
+    local_stack = {(c["id"], c["proto"]): c.get("stack") for c in L["insts"]}
+    for k, st in local_stack.items():
+        if k in inherited:
+            ctx.count("override: local and inherited definition of one key")
+            if inherited[k] - {st}:
+                ctx.count("override: ... differing in PROT-STACK-SNREF")
+    for k, sts in inherited.items():
+        if k not in local_stack and len(sts) > 1:
+            ctx.count("inherited only: one key offered with differing PROT-STACK-SNREF")
+    ctx.count("visible instances with PROT-STACK-SNREF", sum(1 for r in refs if r[0] in inst_by_tag and inst_by_tag[r[0]][0].get("stack") is not None))
     for k, t in last_local.items():
         if by_key.get(k) != t:
             ctx.violate("local-overrides-parent", ["local-not-effective"], "value", wit, f"the local definition of {k} is not the visible one")
